@@ -167,7 +167,9 @@ class EsClient:
                 raise exceptions.SystemSetupError(msg)
             except elasticsearch.helpers.BulkIndexError as e:
                 for err in e.errors:
-                    err_type = err.get("index", {}).get("error", {}).get("type", None)
+                    err_cause = err.get("index", {}).get("error", {})
+                    # the cause of a failed item is usually an object but may also be a plain string
+                    err_type = err_cause.get("type", None) if isinstance(err_cause, dict) else err_cause
                     if err.get("index", {}).get("status", None) not in self.retryable_status_codes:
                         msg = f"Unretryable error encountered when sending metrics to remote metrics store: [{err_type}]"
                         self.logger.exception("%s - Full error(s) [%s]", msg, str(e.errors))
